@@ -37,7 +37,7 @@ package iobroker
 //@   rely mu outNotMe: imp(old(b.ownOut) != me, b.ownOut != me)
 
 //@ func Broker.connect(b, ctx, sl, addr, cancelUs, cancelOther, dir, key, proxy)
-//@   props C01 C04 C11
+//@   props C01 C04 C06 C11
 //@   ghost me int
 //@   ghost phase int = 0
 //@   ghost key0 string = ""
